@@ -1540,3 +1540,108 @@ def inline_tail_closures(trees: dict[str, ast.Module], known_funcs: set[str]) ->
                             seq[:] = out or [ast.copy_location(ast.Pass(), outer)]
                 n_done += 1
     return n_done
+
+
+# ------------------------------------------------------------------ a class that only wraps one deque
+
+def deque_wrappers_as_subclasses(trees: dict[str, ast.Module], known_classes: set[str]) -> dict[str, str]:
+    """`class TimestampWindow: def __init__(self): self._stamps = deque()` whose every method touches nothing but
+    `self._stamps`: the object *is* that deque with a few named operations.  Rewritten in memory to the equivalent
+    `class TimestampWindow(deque)` (the field read becomes `self`; `__len__` / `clear` / `__iter__` / `__bool__` that
+    only delegate are dropped - the deque's own do the same), the form of a private window class the rules already
+    read (prune method of the window itself, `append` through a small helper).  Only for classes new to the rules
+    that take no constructor arguments and have no other attribute; users of the class see the operations it defines
+    either way."""
+    known_names = {q.split(":", 1)[-1] for q in known_classes}
+    done: dict[str, str] = {}
+    for mname, tree in trees.items():
+        for c in [n for n in tree.body if isinstance(n, ast.ClassDef)]:
+            if c.name in known_names or c.bases or c.decorator_list or c.keywords:
+                continue
+            methods = [m for m in c.body if isinstance(m, (ast.FunctionDef, ast.AsyncFunctionDef))]
+            init = next((m for m in methods if m.name == "__init__"), None)
+            if init is None or len(init.args.args) != 1 or init.args.vararg or init.args.kwarg or init.args.kwonlyargs:
+                continue
+            body = [b for b in init.body if not _is_docstring(b)]
+            if len(body) != 1:
+                continue
+            st = body[0]
+            tgt = st.targets[0] if isinstance(st, ast.Assign) and len(st.targets) == 1 else (st.target if isinstance(st, ast.AnnAssign) and st.value is not None else None)
+            val = st.value if tgt is not None else None
+            if not (isinstance(tgt, ast.Attribute) and isinstance(tgt.value, ast.Name) and tgt.value.id == init.args.args[0].arg and isinstance(val, ast.Call) and not val.args and not val.keywords and ast.unparse(val.func).split(".")[-1] == "deque"):
+                continue
+            fld = tgt.attr
+            # nothing else in the class body than methods, a docstring and `__slots__`
+            if any(not (isinstance(b, (ast.FunctionDef, ast.AsyncFunctionDef)) or _is_docstring(b) or (isinstance(b, ast.Assign) and len(b.targets) == 1 and isinstance(b.targets[0], ast.Name) and b.targets[0].id == "__slots__")) for b in c.body):
+                continue
+            ok = True
+            for m in methods:
+                if m is init:
+                    continue
+                if any(ast.unparse(d) in ("staticmethod", "classmethod", "property") for d in m.decorator_list) or not m.args.args:
+                    ok = False
+                    break
+                sn = m.args.args[0].arg
+                par: dict[int, ast.AST] = {}
+                for n in ast.walk(m):
+                    for ch in ast.iter_child_nodes(n):
+                        par[id(ch)] = n
+                for n in ast.walk(m):
+                    if isinstance(n, ast.Name) and n.id == sn:
+                        p_ = par.get(id(n))
+                        if not (isinstance(p_, ast.Attribute) and p_.value is n and p_.attr == fld and isinstance(p_.ctx, ast.Load)):
+                            ok = False
+                            break
+                if not ok:
+                    break
+            if not ok or any(isinstance(n, ast.Attribute) and n.attr == fld and id(n) for t in trees.values() for cc in ast.walk(t) if isinstance(cc, ast.ClassDef) and cc is not c for n in ast.walk(cc)):
+                continue
+
+            def delegates_only(m: ast.FunctionDef, what: str) -> bool:
+                b = [x for x in m.body if not _is_docstring(x)]
+                if len(b) != 1:
+                    return False
+                v = b[0].value if isinstance(b[0], (ast.Return, ast.Expr)) else None
+                src = ast.unparse(v) if v is not None else ""
+                sn = m.args.args[0].arg
+                return src == what.replace("SELF", f"{sn}.{fld}")
+
+            drop = []
+            for m in methods:
+                if m is init:
+                    drop.append(m)
+                elif m.name == "__len__" and delegates_only(m, "len(SELF)"):
+                    drop.append(m)
+                elif m.name == "clear" and delegates_only(m, "SELF.clear()"):
+                    drop.append(m)
+                elif m.name == "__iter__" and delegates_only(m, "iter(SELF)"):
+                    drop.append(m)
+                elif m.name == "__bool__" and delegates_only(m, "bool(SELF)"):
+                    drop.append(m)
+                elif m.name.startswith("__") and m.name.endswith("__"):
+                    ok = False  # another special method: its meaning would change with the base class
+            if not ok:
+                continue
+            for m in methods:
+                if m in drop:
+                    continue
+                sn = m.args.args[0].arg
+
+                class _Self(ast.NodeTransformer):
+                    def visit_Attribute(self, n: ast.Attribute) -> ast.AST:
+                        self.generic_visit(n)
+                        if n.attr == fld and isinstance(n.value, ast.Name) and n.value.id == sn:
+                            return ast.copy_location(ast.Name(id=sn, ctx=ast.Load()), n)
+                        return n
+
+                _Self().visit(m)
+            c.body = [b for b in c.body if b not in drop and not (isinstance(b, ast.Assign) and isinstance(b.targets[0], ast.Name) and b.targets[0].id == "__slots__")] or [ast.Pass()]
+            imp = ast.ImportFrom(module="collections", names=[ast.alias(name="deque", asname="__deque_base")], level=0)
+            ast.copy_location(imp, c)
+            tree.body.insert(tree.body.index(c), imp)
+            base = ast.Name(id="__deque_base", ctx=ast.Load())
+            ast.copy_location(base, c)
+            c.bases = [base]
+            ast.fix_missing_locations(tree)
+            done[f"{mname}:{c.name}"] = fld
+    return done
